@@ -1,1 +1,314 @@
-//! shared alphabets
+//! Shared finite alphabets and the harness-side reference value type.
+#![allow(dead_code)]
+
+use crate::common::num_repr;
+use std::cmp::Ordering;
+
+/// Reference data value (never a function).
+#[derive(Clone, Debug, PartialEq)]
+pub enum RV {
+    Num(f64),
+    Str(String),
+    Bool(bool),
+    Null,
+    List(Vec<RV>),
+    Rec(Vec<(String, RV)>),
+}
+
+pub fn quote_str(s: &str) -> Option<String> {
+    if !s.contains('"') {
+        Some(format!("\"{}\"", s))
+    } else if !s.contains('\'') {
+        Some(format!("'{}'", s))
+    } else {
+        None
+    }
+}
+
+pub fn is_ident(s: &str) -> bool {
+    let mut c = s.chars();
+    match c.next() {
+        Some(f) if f.is_ascii_alphabetic() || f == '_' => {}
+        _ => return false,
+    }
+    if !c.all(|x| x.is_ascii_alphanumeric() || x == '_') {
+        return false;
+    }
+    ![
+        "if", "then", "else", "true", "false", "null", "and", "or", "not", "do", "return", "output",
+    ]
+    .contains(&s)
+}
+
+impl RV {
+    pub fn num(n: f64) -> RV {
+        RV::Num(n)
+    }
+    pub fn s(x: &str) -> RV {
+        RV::Str(x.to_string())
+    }
+    pub fn list(v: Vec<RV>) -> RV {
+        RV::List(v)
+    }
+
+    /// Blots source text that evaluates to this value (harness-side printer).
+    pub fn src(&self) -> String {
+        match self {
+            RV::Num(n) => num_src(*n),
+            RV::Str(s) => quote_str(s).expect("string with both quote kinds has no literal"),
+            RV::Bool(b) => b.to_string(),
+            RV::Null => "null".into(),
+            RV::List(v) => format!("[{}]", v.iter().map(|x| x.src()).collect::<Vec<_>>().join(", ")),
+            RV::Rec(es) => format!(
+                "{{{}}}",
+                es.iter()
+                    .map(|(k, v)| {
+                        let key = if is_ident(k) { k.clone() } else { quote_str(k).expect("key") };
+                        format!("{}: {}", key, v.src())
+                    })
+                    .collect::<Vec<_>>()
+                    .join(", ")
+            ),
+        }
+    }
+
+    /// Same textual form as `common::canon_value`.
+    pub fn canon(&self) -> String {
+        match self {
+            RV::Num(n) => num_repr(*n),
+            RV::Str(s) => format!("{:?}", s),
+            RV::Bool(b) => b.to_string(),
+            RV::Null => "null".into(),
+            RV::List(v) => format!("[{}]", v.iter().map(|x| x.canon()).collect::<Vec<_>>().join(", ")),
+            RV::Rec(es) => format!(
+                "{{{}}}",
+                es.iter().map(|(k, v)| format!("{:?}: {}", k, v.canon())).collect::<Vec<_>>().join(", ")
+            ),
+        }
+    }
+
+    pub fn type_name(&self) -> &'static str {
+        match self {
+            RV::Num(_) => "number",
+            RV::Str(_) => "string",
+            RV::Bool(_) => "boolean",
+            RV::Null => "null",
+            RV::List(_) => "list",
+            RV::Rec(_) => "record",
+        }
+    }
+
+    pub fn is_list(&self) -> bool {
+        matches!(self, RV::List(_))
+    }
+
+    pub fn contains_nan(&self) -> bool {
+        match self {
+            RV::Num(n) => n.is_nan(),
+            RV::List(v) => v.iter().any(|x| x.contains_nan()),
+            RV::Rec(es) => es.iter().any(|(_, v)| v.contains_nan()),
+            _ => false,
+        }
+    }
+
+    /// Reference deep equality: IEEE on numbers, code points on strings, key order ignored.
+    pub fn equals(&self, o: &RV) -> bool {
+        match (self, o) {
+            (RV::Num(a), RV::Num(b)) => a == b,
+            (RV::Str(a), RV::Str(b)) => a == b,
+            (RV::Bool(a), RV::Bool(b)) => a == b,
+            (RV::Null, RV::Null) => true,
+            (RV::List(a), RV::List(b)) => a.len() == b.len() && a.iter().zip(b).all(|(x, y)| x.equals(y)),
+            (RV::Rec(a), RV::Rec(b)) => {
+                a.len() == b.len()
+                    && a.iter().all(|(k, v)| b.iter().find(|(k2, _)| k2 == k).map(|(_, v2)| v.equals(v2)).unwrap_or(false))
+            }
+            _ => false,
+        }
+    }
+
+    /// Reference ordering: numbers, booleans (false < true), strings by code point, lists
+    /// lexicographically with a proper prefix first; everything else unordered.
+    pub fn compare(&self, o: &RV) -> Option<Ordering> {
+        match (self, o) {
+            (RV::Num(a), RV::Num(b)) => a.partial_cmp(b),
+            (RV::Bool(a), RV::Bool(b)) => Some(a.cmp(b)),
+            (RV::Str(a), RV::Str(b)) => Some(a.chars().cmp(b.chars())),
+            (RV::List(a), RV::List(b)) => {
+                for (x, y) in a.iter().zip(b.iter()) {
+                    match x.compare(y) {
+                        Some(Ordering::Equal) => continue,
+                        other => return other,
+                    }
+                }
+                Some(a.len().cmp(&b.len()))
+            }
+            _ => None,
+        }
+    }
+}
+
+/// Source text for a number, including the non-finite ones and negative zero.
+pub fn num_src(n: f64) -> String {
+    if n.is_nan() {
+        "(0/0)".into()
+    } else if n == f64::INFINITY {
+        "inf".into()
+    } else if n == f64::NEG_INFINITY {
+        "(-inf)".into()
+    } else if n == 0.0 && n.is_sign_negative() {
+        "(-0)".into()
+    } else if n < 0.0 {
+        format!("(-{})", pos_num_src(-n))
+    } else {
+        pos_num_src(n)
+    }
+}
+
+fn pos_num_src(n: f64) -> String {
+    // Rust's shortest round-trip text; `{:?}` may use exponent form (1e300), which the literal
+    // grammar accepts. Plain integers are printed without ".0".
+    let s = format!("{:?}", n);
+    if let Some(stripped) = s.strip_suffix(".0") { stripped.to_string() } else { s }
+}
+
+pub const NAN: f64 = f64::NAN;
+
+/// Boundary numbers used as elements.
+pub fn number_pool(thorough: bool) -> Vec<f64> {
+    let mut v = vec![f64::NAN, f64::INFINITY, f64::NEG_INFINITY, 0.0, -0.0, 1.0, -1.0, 2.0, 0.5, -2.5, 3.0];
+    if thorough {
+        v.extend([1e308, 5e-324, 9007199254740992.0, 255.0, 1e-7, 7.0]);
+    }
+    v
+}
+
+/// All words of length 0..=max_len over `alphabet`.
+pub fn words<T: Clone>(alphabet: &[T], max_len: usize) -> Vec<Vec<T>> {
+    let mut out: Vec<Vec<T>> = vec![vec![]];
+    let mut layer: Vec<Vec<T>> = vec![vec![]];
+    for _ in 0..max_len {
+        let mut next = vec![];
+        for w in &layer {
+            for a in alphabet {
+                let mut w2 = w.clone();
+                w2.push(a.clone());
+                next.push(w2);
+            }
+        }
+        out.extend(next.iter().cloned());
+        layer = next;
+    }
+    out
+}
+
+/// Periodic extension of `word` to length `n`.
+pub fn extend_periodic<T: Clone>(word: &[T], n: usize) -> Vec<T> {
+    (0..n).map(|i| word[i % word.len()].clone()).collect()
+}
+
+/// The 24-code-point string alphabet Σ.
+pub fn sigma() -> Vec<char> {
+    vec![
+        'a', 'B', ' ', '"', '\'', '\\', '/', '\n', '\t', '\r', '\u{0}', '\u{1f}', '\u{7f}', '\u{e9}', '\u{301}',
+        '\u{2028}', '\u{fffd}', '\u{ffff}', '\u{1f600}', '\u{10ffff}', '{', '}', '$', '#',
+    ]
+}
+
+/// All strings of length <= k over Σ.
+pub fn sigma_strings(k: usize) -> Vec<String> {
+    words(&sigma(), k).into_iter().map(|w| w.into_iter().collect()).collect()
+}
+
+// ---------------------------------------------------------------------------------------------
+// double grid N
+
+pub fn mantissa_set(thorough: bool) -> Vec<u64> {
+    let full = (1u64 << 52) - 1;
+    let mut m = vec![0, 1, 2, 3, full, full - 1, 1u64 << 51, (1u64 << 51) + 1, (1u64 << 51) - 1, 0x5555555555555, 0xAAAAAAAAAAAAA];
+    let step = if thorough { 1 } else { 11 };
+    let mut k = 2;
+    while k < 52 {
+        m.push(1u64 << k);
+        k += step;
+    }
+    if thorough {
+        for k in (3..52).step_by(2) {
+            m.push((1u64 << k) - 1);
+            m.push(full ^ (1u64 << k));
+        }
+    }
+    m.sort();
+    m.dedup();
+    m
+}
+
+fn ulp_neighbours(x: f64, k: i64) -> Vec<f64> {
+    let b = x.to_bits() as i64;
+    (-k..=k).map(|d| f64::from_bits((b + d) as u64)).filter(|v| v.is_finite()).collect()
+}
+
+/// The finite double grid N (positive and negative).
+pub fn double_grid(thorough: bool) -> Vec<f64> {
+    let mut v: Vec<f64> = vec![];
+    let mant = mantissa_set(thorough);
+    let exp_step = if thorough { 1 } else { 7 };
+    let mut e = 0u64;
+    while e < 2047 {
+        for m in &mant {
+            v.push(f64::from_bits((e << 52) | m));
+        }
+        e += exp_step;
+    }
+    for e in [0u64, 1, 2, 1022, 1023, 1024, 1074, 1075, 1076, 2045, 2046] {
+        for m in &mant {
+            v.push(f64::from_bits((e << 52) | m));
+        }
+    }
+    // nearest doubles to 10^k and neighbours
+    for k in -323..=308 {
+        let x: f64 = format!("1e{}", k).parse().unwrap();
+        v.extend(ulp_neighbours(x, 3));
+    }
+    // 2^k +- {0,1,2}
+    for k in 0..=64 {
+        let p = 2f64.powi(k);
+        for d in [-2.0, -1.0, 0.0, 1.0, 2.0] {
+            v.push(p + d);
+        }
+    }
+    for x in [1e15, 1e21, 1e-4, 1e-7, 9007199254740992.0, 1e16, 1e22, 1e23, 0.1, 0.3, 1.0 / 3.0] {
+        v.extend(ulp_neighbours(x, 3));
+    }
+    // 15-digit carry cases
+    for k in -20..=20 {
+        for d in 0..10 {
+            let s = format!("9.9999999999999{}e{}", d, k);
+            let x: f64 = s.parse().unwrap();
+            v.extend(ulp_neighbours(x, 2));
+            let s2 = format!("9.99999999999999{}e{}", d, k);
+            let x2: f64 = s2.parse().unwrap();
+            v.extend(ulp_neighbours(x2, 2));
+        }
+    }
+    // classical hard cases
+    for s in [
+        "5e-324", "2.2250738585072014e-308", "2.2250738585072011e-308", "1.7976931348623157e308", "8.41e21", "9.5e-324",
+        "123456789012345680000", "0.000001", "1.0000000000000002", "4.35", "0.1", "0.2", "0.30000000000000004",
+        "2.5e-7", "8.5", "17.5", "1.005", "1234567.891", "999999.9999999987", "99999.99999999999", "0.00009999999999999999",
+        "999999999999999.9", "4503599627370495.5", "4503599627370496.5", "9007199254740993", "6.02214076e23", "1.616255e-35",
+    ] {
+        let x: f64 = s.parse().unwrap();
+        v.extend(ulp_neighbours(x, 1));
+    }
+    let mut out: Vec<f64> = vec![];
+    for x in v {
+        if x.is_finite() {
+            out.push(x);
+            out.push(-x);
+        }
+    }
+    out.sort_by(|a, b| a.to_bits().cmp(&b.to_bits()));
+    out.dedup_by(|a, b| a.to_bits() == b.to_bits());
+    out
+}
